@@ -64,8 +64,8 @@ CHECKS = {
          "try_catch_*, enable/disable) refines, in the PEG formalism with labelled failures, the documented expansion of its rule (Spec.expandKind): same accepted inputs, same consumed prefix, "
          "same blamed rule (C09_refines, C09_exact); where the reference gives two expansions they are proved equivalent (C09_two_forms_*). Alias rules (list*, pad*, minus, rep_min, rep_max, "
          "star_must, if_must_else, keyword, identifier, shebang, ...) are the same C++ type as their expansion; the resolver expands them like the using-declarations and the differential run checks it."),
-   note=GENERAL_NOTE + " expandKind is transcribed by hand from doc/Rule-Reference.md (a mismatch with the code shows up in the semEval oracle, a mismatch with the doc would not). string / istring / bytes / contrib rep_one_min_max equal their documented sequences (C09_string_expansion, C09_istring_expansion, C09_bytes_expansion, C09_rep_one_min_max); ranges, rep_string, separated_seq and if_then equivalences are not covered by a theorem.",
-   technique="Lean 4 refinement proof of each optimised rule body into the PEG semantics of its documented expansion; differential correspondence; spec-evaluator oracle"),
+   note=GENERAL_NOTE + " expandKind is transcribed by hand from doc/Rule-Reference.md; a mismatch with the code shows up in the semEval oracle, a mismatch with the reference in the documentation tie: every '[Equivalent] to' line of the reference whose rules the resolver knows (55 of 144 entries; the rest are ICU rules, non-rule template arguments or 'equivalent, but' remarks) is instantiated with concrete rules and both sides are evaluated by the formal evaluator on every short input. string / istring / bytes / contrib rep_one_min_max equal their documented sequences (C09_string_expansion, C09_istring_expansion, C09_bytes_expansion, C09_rep_one_min_max); ranges, rep_string, separated_seq and if_then are resolved to one / string / seq / if_then_else nodes by the generator (differential run) and are not covered by a theorem of their own.",
+   technique="Lean 4 refinement proof of each optimised rule body into the PEG semantics of its documented expansion; differential correspondence; spec-evaluator oracle; documentation tie (the reference's equivalences evaluated in the formal semantics)"),
  'C10': dict(engine='leaf-encodings', design_ref='DESIGN.md §6 C10',
    text=("Proof (Lean 4): peekUtf8 accepts exactly the well-formed encodings of scalar values (= Unicode Table 3-7; no overlong forms, surrogates, > U+10FFFF, truncations) with N = encoding length; "
          "the same for UTF-16 (both byte orders) and UTF-32; peekUint = endian-adjusted, masked value with N = width; one/not_one/range/not_range/ranges/any accept exactly their sets for every Peek; "
